@@ -243,3 +243,75 @@ theorem sortRequire_sorted (topo l : S) :
   exact foldl_insertRev_sorted (topoKey topo) l [] List.Pairwise.nil
 
 end Am
+
+namespace Am
+
+/-! ### membership in `parseAdd` -/
+
+/-- `z` appears in some state's Add relation. -/
+def IsAddTarget (sch : Schema) (z : Nat) : Prop := ∃ w, z ∈ (sch.get w).add
+
+theorem mem_addStatesOf {c : RCtx} {name z : Nat} (h : z ∈ addStatesOf c name) :
+    IsAddTarget c.sch z := by
+  unfold addStatesOf at h
+  exact ⟨name, (List.mem_filter.1 h).1⟩
+
+theorem mem_parseAddPass (c : RCtx) : ∀ (snap ret visited : S) (ch : Bool) (z : Nat),
+    z ∈ (parseAddPass c snap ret visited ch).1 → z ∈ ret ∨ IsAddTarget c.sch z := by
+  intro snap
+  induction snap with
+  | nil => intro ret visited ch z h; exact Or.inl h
+  | cons name rest ih =>
+    intro ret visited ch z h
+    simp only [parseAddPass] at h
+    split at h
+    · exact ih _ _ _ z h
+    · split at h
+      · exact ih _ _ _ z h
+      · split at h
+        · exact ih _ _ _ z h
+        · rcases ih _ _ _ z h with h1 | h1
+          · rcases List.mem_append.1 h1 with h2 | h2
+            · exact Or.inl h2
+            · exact Or.inr (mem_addStatesOf h2)
+          · exact Or.inr h1
+
+theorem mem_parseAddLoop (c : RCtx) : ∀ (fuel : Nat) (ret visited : S) (z : Nat),
+    z ∈ parseAddLoop c fuel ret visited → z ∈ ret ∨ IsAddTarget c.sch z := by
+  intro fuel
+  induction fuel with
+  | zero => intro ret visited z h; exact Or.inl h
+  | succ n ih =>
+    intro ret visited z h
+    simp only [parseAddLoop] at h
+    split at h
+    · rcases ih _ _ z h with h1 | h1
+      · exact mem_parseAddPass c ret ret visited false z h1
+      · exact Or.inr h1
+    · exact mem_parseAddPass c ret ret visited false z h
+
+/-- everything `parseAdd` returns was in its input or is an Add target. -/
+theorem mem_parseAdd {c : RCtx} {l : S} {z : Nat} (h : z ∈ parseAdd c l) :
+    z ∈ l ∨ IsAddTarget c.sch z := mem_parseAddLoop c _ l [] z h
+
+/-- a state of the target is a survivor of the reverse scan, or an Add target
+    that no survivor Removes. -/
+theorem mem_targetStates_cases {c : RCtx} {toSet : S} {z : Nat} (h : z ∈ targetStates c toSet) :
+    let s1 := parseRequire c.sch (uniq (parseAdd c toSet))
+    let surv := scanBlocked c.sch s1 s1.reverse []
+    (z ∈ surv ∨ IsAddTarget c.sch z) ∧ ∀ x ∈ surv, z ∉ (c.sch.get x).remove := by
+  intro s1 surv
+  simp only [targetStates, mem_sortStates] at h
+  unfold targetUnsorted at h
+  have h2 := (parseRequire_sublist _ _).subset h
+  simp only [List.mem_reverse, mem_uniq, List.mem_filter] at h2
+  refine ⟨mem_parseAdd h2.1, ?_⟩
+  intro x hx hz
+  have : z ∈ ((scanBlocked c.sch s1 s1.reverse []).map (fun n => (c.sch.get n).remove)).flatten := by
+    simp only [List.mem_flatten, List.mem_map]
+    exact ⟨_, ⟨x, hx, rfl⟩, hz⟩
+  have h3 := h2.2
+  simp only [Bool.not_eq_true', List.contains_eq_mem, decide_eq_false_iff_not] at h3
+  exact h3 this
+
+end Am
